@@ -260,6 +260,82 @@ def c05_interleaved(task):
     return {"cov": cov, "viol": viol}
 
 
+def c05_threads(task):
+    """Two split() calls running in two threads at once (a thread pool over several recordings): every schedule with at
+    most `bound` preemptions at line granularity inside auditok/core.py; each call still yields exactly what it yields alone."""
+    pa, pb, tup, bound = task
+    from . import sched
+
+    L = lib()
+    from auditok import workers as w
+
+    sched.install()
+    mn, mx, ms, mode = tup
+    sw, ch, rate, W = 2, 1, 10, 1
+    kw = dict(min_dur=mn * 0.1, max_dur=mx * 0.1, max_silence=ms * 0.1, drop_trailing_silence=bool(mode & 4),
+              strict_min_dur=bool(mode & 2), analysis_window=0.1, energy_threshold=50, sr=rate, sw=sw, ch=ch)
+    da, db = coded(tm.parse(pa), W, sw, ch), coded(tm.parse(pb), W, sw, ch)
+    solo = [[(r.start, r.data) for r in L["core"].split(d, **kw)] for d in (da, db)]
+
+    class Job(w.Worker):
+        def __init__(self, data, method):
+            self.data, self.method, self.res = data, method, None
+            super().__init__()
+
+        def _process_message(self, message):
+            pass
+
+        def run(self):
+            if self.method:
+                k2 = {k: v for k, v in kw.items() if k not in ("sr", "sw", "ch")}
+                self.res = [(r.start, r.data) for r in L["core"].AudioRegion(self.data, rate, sw, ch).split(**k2)]
+            else:
+                self.res = [(r.start, r.data) for r in L["core"].split(self.data, **kw)]
+
+    class Ctx:
+        pass
+
+    def make():
+        ctx = Ctx()
+        ctx.a, ctx.b = Job(da, False), Job(db, True)
+
+        def main():
+            ctx.a.start()
+            ctx.b.start()
+            ctx.a.join()
+            ctx.b.join()
+
+        return main, ctx
+
+    def check(ex, ctx):
+        if ex.outcome != "done":
+            return "%s: the two splitting threads never end" % ex.outcome
+        for t in ex.th:
+            if t.crash is not None:
+                return "a splitting thread died with %r" % (t.crash,)
+        if ctx.a.res != solo[0] or ctx.b.res != solo[1]:
+            return ("split(%s) and split(%s) running in two threads: starts / sizes %r and %r, alone %r and %r" % (
+                pa, pb, [(x[0], len(x[1])) for x in ctx.a.res], [(x[0], len(x[1])) for x in ctx.b.res],
+                [(x[0], len(x[1])) for x in solo[0]], [(x[0], len(x[1])) for x in solo[1]]))
+        return None
+
+    old = sched.TRACE_FILES[0]
+    sched.TRACE_FILES[0] = ("auditok/core.py",)
+    try:
+        st = sched.explore(make, check, line_mode=True, preemption_bound=bound, max_seconds=120)
+    finally:
+        sched.TRACE_FILES[0] = old
+    viol = []
+    for trace, msg, labels in st.violations[:1]:
+        viol.append(("two-threads a=%s b=%s tuple=%d,%d,%d,%d schedule=%s" % (pa, pb, mn, mx, ms, mode, ".".join(map(str, trace))), msg,
+                     {"kind": "c05t", "a": pa, "b": pb, "tuple": [mn, mx, ms, mode], "bound": bound}))
+    cov = {"evaluations": st.executions, "two_thread_schedules": st.executions, "distinct_nontrivial": st.executions}
+    if st.cap_hit:
+        cov["caps_hit"] = ["two splitting threads %s/%s: %s" % (pa, pb, st.cap_hit)]
+        cov["exhaustive"] = False
+    return {"cov": cov, "viol": viol}
+
+
 def c05_long(task):
     """Large rows: long recordings (hundreds of windows), large window counts."""
     sw, ch, W, rate = task
@@ -767,7 +843,8 @@ def split_laziness(rep, L):
             raise io.UnsupportedOperation("fileno")
 
     validator = lib_["util"].AudioEnergyValidator(50, 2, 1)
-    kinds = ("src", "reader", "rec_reader", "hop", "hop_tail", "rec_hop_tail", "stdin", "region_start")
+    # src_mr / reader_mr: max_read ends one sample into a window and the source holds more audio behind the limit
+    kinds = ("src", "reader", "rec_reader", "hop", "hop_tail", "rec_hop_tail", "stdin", "region_start", "src_mr", "reader_mr")
     rep.cov["laziness_inputs"] = list(kinds)
     for (mn, mx, ms, mode) in [(1, 1, 0, 0), (1, 3, 0, 0), (2, 3, 1, 0), (1, 3, 2, 0), (2, 4, 1, 4), (1, 2, 1, 2), (3, 3, 0, 6),
                                (2, 5, 3, 4), (1, 4, 3, 0), (2, 2, 1, 0), (1, 5, 0, 4), (3, 5, 2, 2)]:
@@ -777,9 +854,10 @@ def split_laziness(rep, L):
                 if kind != "src" and n > L - 2:
                     continue
                 wflags = [bool((bits >> k) & 1) for k in range(n)]
-                tail = 1 if kind.endswith("hop_tail") else 0
+                tail = 1 if kind.endswith("hop_tail") or kind.endswith("_mr") else 0
                 data = coded(wflags, W, 2, 1, tail, True)
                 total = len(data) // 2
+                full = data + (coded([True, True], W, 2, 1) if kind.endswith("_mr") else b"")
                 B, H = (2 * W, W) if "hop" in kind else (W, W)
                 samples = [data[2 * i : 2 * i + 2] for i in range(total)]
                 blocks = blocks_of(samples, B, H)
@@ -812,9 +890,14 @@ def split_laziness(rep, L):
                         _sys.stdin = src
                         gen = lib_["core"].split("-", analysis_window=0.1, sampling_rate=20, sample_width=2, channels=1, **kw)
                     else:
-                        src = Counting(data, 20, 2, 1)
+                        src = Counting(full, 20, 2, 1)
                         if kind == "src":
                             inp = src
+                        elif kind == "src_mr":
+                            inp = src
+                            kw = dict(kw, max_read=total / 20)
+                        elif kind == "reader_mr":
+                            inp = lib_["util"].AudioReader(src, block_dur=0.1, max_read=total / 20)
                         elif kind in ("reader", "rec_reader"):
                             inp = lib_["util"].AudioReader(src, block_dur=0.1, record=(kind == "rec_reader"))
                         else:
@@ -854,6 +937,10 @@ def split_laziness(rep, L):
                     _sys.stdin = old_stdin
                 if kind == "region_start":
                     src.nones = 1  # (end-of-stream requests cannot be seen from a validator)
+                if kind.endswith("_mr"):
+                    if msg is None and src.samples > total:
+                        msg = "%d samples pulled from the source, max_read allows %d" % (src.samples, total)
+                    src.nones = 1  # (under max_read the source itself need not be asked for its end)
                 if msg is None and src.nones != 1:
                     msg = "end of stream requested %d times from the input" % src.nones
                 if exp:
@@ -1240,6 +1327,10 @@ def run(prop, tier):
         itup = [(1, 1, 0, 0), (1, 2, 0, 0), (2, 3, 1, 0), (1, 3, 1, 4), (2, 2, 0, 2), (1, 3, 2, 6)]
         itasks = [("i", (ipats, [t])) for t in itup]
         itasks += [("l", t) for t in ((2, 1, 4, 16000), (1, 2, 8, 8000), (4, 3, 2, 16), (2, 2, 16, 44100))]
+        # two split() calls running in two threads: all schedules with <= 1 preemptions inside core.py
+        itasks += [("t", ("AAaA", "AaAA", (1, 3, 1, 0), 1)), ("t", ("AAA", "aAA", (2, 2, 0, 4), 1))]
+        if not quick:
+            itasks += [("t", ("AaAA", "AAaA", (1, 2, 1, 2), 1)), ("t", ("aAAa", "AAAA", (1, 3, 0, 6), 1))]
         for rate, W, aw in ((48000, 960, "0.02"), (100, 1, "0.01"), (44100, 441, "0.01")):
             step = 131 if rate == 100 else 22
             for lo in range(0, 131, step):
@@ -1331,6 +1422,8 @@ def _c05_dispatch(t):
         return c05_long(t[1])
     if t[0] == "s":
         return c05_starts(t[1])
+    if t[0] == "t":
+        return c05_threads(t[1])
     return c05_work(t[1]) if t[0] == "w" else c05_interleaved(t[1])
 
 
@@ -1339,6 +1432,9 @@ def replay(case):
     k = case["kind"]
     if k == "c05i":
         part = c05_interleaved(([case["a"], case["b"]], [tuple(case["tuple"])]))
+        return part["viol"][0][1] if part["viol"] else None
+    if k == "c05t":
+        part = c05_threads((case["a"], case["b"], tuple(case["tuple"]), case["bound"]))
         return part["viol"][0][1] if part["viol"] else None
     if k == "c05":
         mn, mx, ms, mode = case["tuple"]
